@@ -13,6 +13,6 @@ for sid in sys.argv[2:]:
     shutil.copy(os.path.join(src, "demo.py"), dst)
     meta = json.load(open(os.path.join(src, "meta.json")))
     meta["confirmed"] = {"how": "tools/confirm_seed.sh in a scratch worktree at /repo HEAD: demo without patch, git apply, demo with patch, full pytest suite, revert", "result": log}
-    meta["round"] = 2
+    meta["round"] = int(os.environ.get("SEED_ROUND", "2"))
     json.dump(meta, open(os.path.join(dst, "meta.json"), "w"), indent=1)
     print(sid, "adopted")
